@@ -1168,7 +1168,11 @@ int asn1_object_identifier_print(FILE *fp, int format, int indent, const char *l
 	format_print(fp, format, indent, "%s: %s", label, name ? name : "(unknown)");
 	if (nodes) {
 		fprintf(fp, " (");
-		for (i = 0; i < nodes_cnt - 1; i++) {
+		for (i = 0; i < nodes_cnt - 1; i++)
+		VERIF_LOOP_ASSIGNS(i)
+		VERIF_LOOP_INVARIANT(i <= nodes_cnt - 1)
+		VERIF_LOOP_DECREASES(nodes_cnt - 1 - i)
+		{
 			fprintf(fp, "%d.", (int)nodes[i]);
 		}
 		fprintf(fp, "%d)", nodes[i]);
@@ -1225,7 +1229,11 @@ int asn1_oid_info_from_der_ex(const ASN1_OID_INFO **info, uint32_t *nodes, size_
 		return ret;
 	}
 
-	for (i = 0; i < infos_cnt; i++) {
+	for (i = 0; i < infos_cnt; i++)
+	VERIF_LOOP_ASSIGNS(i, *info)
+	VERIF_LOOP_INVARIANT(i <= infos_cnt)
+	VERIF_LOOP_DECREASES(infos_cnt - i)
+	{
 		if (*nodes_cnt == infos[i].nodes_cnt
 			&& memcmp(nodes, infos[i].nodes, (*nodes_cnt) * sizeof(int)) == 0) {
 			*info = &infos[i];
@@ -1315,7 +1323,12 @@ int asn1_string_is_utf8_string(const char *a, size_t alen)
 	if (!a || !alen) {
 		return 0;
 	}
-	while (alen) {
+	while (alen)
+	VERIF_LOOP_ASSIGNS(a, alen, utf8char)
+	VERIF_LOOP_INVARIANT(alen <= VERIF_LOOP_ENTRY(alen))
+	VERIF_LOOP_INVARIANT(a == VERIF_LOOP_ENTRY(a) + (VERIF_LOOP_ENTRY(alen) - alen))
+	VERIF_LOOP_DECREASES(alen)
+	{
 		if (asn1_utf8char_from_bytes(&utf8char, (const uint8_t **)&a, &alen) != 1) {
 			return 0;
 		}
@@ -1375,7 +1388,15 @@ static int asn1_char_is_printable(int a)
 int asn1_string_is_printable_string(const char *a, size_t alen)
 {
 	size_t i;
-	for (i = 0; i < alen; i++) {
+	for (i = 0; i < alen; i++)
+	VERIF_LOOP_ASSIGNS(i)
+	VERIF_LOOP_INVARIANT(i <= alen)
+	VERIF_LOOP_INVARIANT(verif_gk >= i || (('0' <= a[verif_gk] && a[verif_gk] <= '9') || ('a' <= a[verif_gk] && a[verif_gk] <= 'z')
+		|| ('A' <= a[verif_gk] && a[verif_gk] <= 'Z') || a[verif_gk] == ' ' || a[verif_gk] == '\'' || a[verif_gk] == '('
+		|| a[verif_gk] == ')' || a[verif_gk] == '+' || a[verif_gk] == ',' || a[verif_gk] == '-' || a[verif_gk] == '.'
+		|| a[verif_gk] == '/' || a[verif_gk] == ':' || a[verif_gk] == '=' || a[verif_gk] == '?'))
+	VERIF_LOOP_DECREASES(alen - i)
+	{
 		if (asn1_char_is_printable(a[i]) != 1) {
 			return 0;
 		}
@@ -1452,7 +1473,12 @@ int asn1_printable_string_from_der_ex(int tag, const char **a, size_t *alen, con
 int asn1_string_is_ia5_string(const char *a, size_t alen)
 {
 	size_t i;
-	for (i = 0; i < alen; i++) {
+	for (i = 0; i < alen; i++)
+	VERIF_LOOP_ASSIGNS(i)
+	VERIF_LOOP_INVARIANT(i <= alen)
+	VERIF_LOOP_INVARIANT(verif_gk >= i || (a[verif_gk] & 0x80) == 0)
+	VERIF_LOOP_DECREASES(alen - i)
+	{
 		if (!isascii(a[i])) {
 			return 0;
 		}
@@ -1843,7 +1869,14 @@ int asn1_sequence_of_int_from_der(int *nums, size_t *nums_cnt, size_t max_nums, 
 		if (ret < 0) error_print();
 		return ret;
 	}
-	while (dlen) {
+	while (dlen)
+	VERIF_LOOP_ASSIGNS(d, dlen, nums, *nums_cnt, VERIF_OBJ_WHOLE(nums))
+	VERIF_LOOP_INVARIANT(dlen <= VERIF_LOOP_ENTRY(dlen))
+	VERIF_LOOP_INVARIANT(d == VERIF_LOOP_ENTRY(d) + (VERIF_LOOP_ENTRY(dlen) - dlen))
+	VERIF_LOOP_INVARIANT(*nums_cnt <= max_nums)
+	VERIF_LOOP_INVARIANT(nums == VERIF_LOOP_ENTRY(nums) + *nums_cnt)
+	VERIF_LOOP_DECREASES(dlen)
+	{
 		int num;
 		if (*nums_cnt > max_nums) {
 			error_print();
@@ -1885,7 +1918,13 @@ int asn1_types_get_count(const uint8_t *d, size_t dlen, int tag, size_t *cnt)
 		return -1;
 	}
 	*cnt = 0;
-	while (dlen) {
+	while (dlen)
+	VERIF_LOOP_ASSIGNS(d, dlen, item_tag, item_d, item_dlen, *cnt)
+	VERIF_LOOP_INVARIANT(dlen <= VERIF_LOOP_ENTRY(dlen))
+	VERIF_LOOP_INVARIANT(*cnt <= (VERIF_LOOP_ENTRY(dlen) - dlen) / 2)
+	VERIF_LOOP_INVARIANT(d == VERIF_LOOP_ENTRY(d) + (VERIF_LOOP_ENTRY(dlen) - dlen))
+	VERIF_LOOP_DECREASES(dlen)
+	{
 		if (asn1_any_type_from_der(&item_tag, &item_d, &item_dlen, &d, &dlen) != 1) {
 			error_print();
 			return -1;
@@ -1912,7 +1951,13 @@ int asn1_types_get_item_by_index(const uint8_t *d, size_t dlen, int tag,
 		return -1;
 	}
 
-	while (dlen) {
+	while (dlen)
+	VERIF_LOOP_ASSIGNS(d, dlen, a_tag, a_d, a_dlen, i)
+	VERIF_LOOP_INVARIANT(dlen <= VERIF_LOOP_ENTRY(dlen))
+	VERIF_LOOP_INVARIANT(0 <= i && (size_t)i <= (VERIF_LOOP_ENTRY(dlen) - dlen) / 2)
+	VERIF_LOOP_INVARIANT(d == VERIF_LOOP_ENTRY(d) + (VERIF_LOOP_ENTRY(dlen) - dlen))
+	VERIF_LOOP_DECREASES(dlen)
+	{
 		if (asn1_any_type_from_der(&a_tag, &a_d, &a_dlen, &d, &dlen) != 1) {
 			error_print();
 			return -1;
